@@ -191,6 +191,11 @@ type Family struct {
 	// expires after it (used only by families with channel operations, where a
 	// miscompiled program could block for ever).
 	Timeout time.Duration
+	// RunawayOutput, when non-zero (needs Timeout), stops the program as soon
+	// as it has printed that many bytes — far more than any case of the family
+	// prints: a miscompiled loop that prints for ever is then reported at once
+	// and deterministically (status "runaway-output"), not after the time-out.
+	RunawayOutput int
 
 	batches []batch
 	init    sync.Once
@@ -326,9 +331,14 @@ var HangAfter = 20 * time.Second
 // spins for ever is reported as status "hang" (the goroutine is abandoned; it
 // keeps one core busy until the worker process ends, which is harmless).
 func RunScriggo(src []byte, allowGo bool, timeout time.Duration) ScriggoResult {
+	return RunScriggoBounded(src, allowGo, timeout, 0)
+}
+
+// RunScriggoBounded is RunScriggo with a bound on the output (see Family.RunawayOutput).
+func RunScriggoBounded(src []byte, allowGo bool, timeout time.Duration, runaway int) ScriggoResult {
 	ch := make(chan ScriggoResult, 1)
 	var phase atomic.Int32
-	go func() { ch <- runScriggo(src, allowGo, timeout, &phase) }()
+	go func() { ch <- runScriggo(src, allowGo, timeout, runaway, &phase) }()
 	select {
 	case r := <-ch:
 		return r
@@ -341,7 +351,9 @@ func RunScriggo(src []byte, allowGo bool, timeout time.Duration) ScriggoResult {
 	}
 }
 
-func runScriggo(src []byte, allowGo bool, timeout time.Duration, phase *atomic.Int32) (res ScriggoResult) {
+func runScriggo(src []byte, allowGo bool, timeout time.Duration, runaway int, phase *atomic.Int32) (res ScriggoResult) {
+	var cancelRun context.CancelFunc
+	ranAway := false
 	var mu sync.Mutex
 	var out []byte
 	unprintable := false
@@ -367,6 +379,10 @@ func runScriggo(src []byte, allowGo bool, timeout time.Duration, phase *atomic.I
 	}
 	ro := &scriggo.RunOptions{Print: func(v any) {
 		mu.Lock()
+		if runaway > 0 && len(out) > runaway && cancelRun != nil && !ranAway {
+			ranAway = true
+			cancelRun()
+		}
 		if len(out) < maxOutput { // a program that prints for ever must not exhaust the memory
 			var ok bool
 			out, ok = gcref.AppendPrint(out, v)
@@ -379,6 +395,7 @@ func runScriggo(src []byte, allowGo bool, timeout time.Duration, phase *atomic.I
 	if timeout > 0 {
 		ctx, cancel := context.WithTimeout(context.Background(), timeout)
 		defer cancel()
+		cancelRun = cancel
 		ro.Context = ctx
 	}
 	phase.Store(1)
@@ -389,6 +406,9 @@ func runScriggo(src []byte, allowGo bool, timeout time.Duration, phase *atomic.I
 	switch {
 	case err == nil:
 		res.Status = "ok"
+	case ranAway:
+		res.Status = "runaway-output"
+		res.Msg = fmt.Sprintf("stopped after more than %d bytes of output", runaway)
 	case errors.Is(err, context.DeadlineExceeded):
 		res.Status = "timeout"
 		res.Msg = err.Error()
@@ -545,7 +565,7 @@ func (f *Family) Space() kit.Space {
 			if !ok {
 				panic(fmt.Sprintf("harness: gc output of %s[%d] is missing", f.Name, i))
 			}
-			got := RunScriggo(c.Single(i), f.AllowGo, f.Timeout)
+			got := RunScriggoBounded(c.Single(i), f.AllowGo, f.Timeout, f.RunawayOutput)
 			o := Compare(&c, want, got)
 			if !o.OK {
 				o.Detail = "program:\n" + string(c.Single(i)) + "\n" + o.Detail
